@@ -42,6 +42,8 @@ CONFIGS = {
     # sanitised (recover: diagnostics are logged, aborts only on ASan errors)
     "asan": dict(cc="clang", flags="-O1 -g -std=c11 -fsanitize=address,undefined -fno-omit-frame-pointer"),
     "native": dict(cc="gcc", flags="-O2 -g -DNDEBUG -std=c11 -march=native -O3"),
+    # the other compiler, optimising, no sanitizer (its optimiser exploits different undefined behaviour)
+    "clang": dict(cc="clang", flags="-O2 -g -DNDEBUG -std=c11"),
     # ThreadSanitizer build for the --threads mode of the driver
     "tsan": dict(cc="clang", flags="-O1 -g -std=c11 -fsanitize=thread -fno-omit-frame-pointer"),
     # allocation-failure injection: malloc family wrapped at link time
@@ -575,7 +577,7 @@ class Spec:
             for c in p.get("configs_quick", ["pinned"]):
                 if c not in cq:
                     cq.append(c)
-            for c in p.get("configs_thorough", ["pinned", "O0", "asan"]):
+            for c in p.get("configs_thorough", ["pinned", "O0", "asan", "clang"]):
                 if c not in ct:
                     ct.append(c)
         self.MINIMISE = set()
